@@ -201,6 +201,9 @@ def o36(ctx):
                 sname = tm.evaluate(f.cols[sn], dict(env))
             except tm.EvalError as e:
                 raise Unsupported(f"name generation uses an operation the term evaluator does not interpret: {e}", fe)
+            if not isinstance(tname, str) or not isinstance(sname, str):
+                raise Unsupported("name generation is not a string expression the term evaluator interprets "
+                                  f"({tm.show(f.cols[sn if isinstance(tname, str) else tn])[:100]})", fe)
             want_t = render(TOMO_FMT, "x", t_id)
             want_s = render(render(SUB_FMT, "y", s_id), "x", t_id)
             ctx.count(2, {"version": v, "ids": (t_id, s_id), "tomogram name": tname, "subtomogram name": sname})
